@@ -74,6 +74,10 @@ def c06_scenarios(topo, origin, blocked_origin, fakes=None):
     out.append(("good-password", "socks5", "auth", lambda: bb.socks5_connect(P5("auth"), T, methods=(0, 2), auth=(b"alice", b"secret")), "ok", False))
     out.append(("socks4-bad-id", "socks4", "auth", lambda: bb.socks4_connect(topo.ports[("socks4", "auth")], T, userid=b"mallory"), "fail", True))
     out.append(("http-get", "http", "direct", lambda: http_raw(topo.ports[("http", "direct")], b"GET http://127.0.0.1/ HTTP/1.1\r\nHost: x\r\n\r\n"), "fail", True))
+    # UDP over an HTTP listener is only offered on the inline channel: any other Proxy-Channel is refused - with a reply
+    for ch in ("quic", "datagram"):
+        out.append(("http-udp-channel-%s" % (ch or "empty"), "http", "direct",
+                    lambda ch=ch: bb.http_connect(topo.ports[("http", "direct")], T, extra_headers="Proxy-Protocol: udp\r\nProxy-Channel: %s\r\n" % ch), "fail", True))
     out.append(("http-bad-protocol", "http", "direct",
                 lambda: bb.http_connect(topo.ports[("http", "direct")], T, extra_headers="Proxy-Protocol: sctp\r\n"), "fail", True))
     return out
